@@ -8,32 +8,12 @@
   (which the export also does) leaves the spine paths of the remaining cells unchanged.
 -/
 import KernProofs.C12Iso
+import KernModel.Spec.NormalForm
 import KernProofs.C03Doc
 namespace KM.C01N
 open KM Importer
 open KM.Spec.Track
 open KM.C02K KM.C03D KM.C12I
-
-/-- a data cell: neither a `**` cell nor a spine operator -/
-def dataCell (c : Str) : Bool := !isHeaderCell c && !isSpineOp c
-
-/-- the exported text of a token (`cellOfTok`, total) -/
-def outText (t : Tok) : Str := match cellOfTok t with | .ok s => s | .error _ => []
-
-/-- the normal form of one cell at column `i` under header text `h` -/
-def normCell (P : CellParser) (h : Option Str) (i : Nat) (c : Str) : Str :=
-  if dataCell c then outText (cellTok P h i c) else c
-
-/-- lines that are processed cell by cell (not empty, not a global comment) -/
-def cellRow (r : List Str) : Bool := match r with | [] => false | c0 :: _ => !startsWith ['!', '!'] c0
-
-def normRow (P : CellParser) (tt : TT) (r : List Str) : List Str :=
-  if cellRow r then r.zipIdx.map (fun ci => normCell P (specHdr tt ci.2) ci.2 ci.1) else r
-
-/-- the cell-wise normal form of a text -/
-def normRows (P : CellParser) : TT → List (List Str) → List (List Str)
-  | _, [] => []
-  | tt, r :: rs => normRow P tt r :: normRows P (tt.step P r) rs
 
 /-- **round trip of single cells** of the class `G` (which may depend on the text of the spine's `**` cell): the exported text of a data cell
     of the class is again a data cell of the class, does not turn its line into a global comment, and exports to itself -/
@@ -198,9 +178,6 @@ theorem C01_normal_form_fixed_point (P : CellParser) (G) (hrt : RT P G) (rows : 
     show normRow P tt' (normRow P tt r) :: normRows P (tt'.step P (normRow P tt r)) (normRows P (tt.step P r) rs) = _
     rw [normRow_idem P G hrt tt tt' ht hh r hg.1, i3]
     rfl
-
-/-- the normal form of a whole text -/
-def normalForm (P : CellParser) (rows : List (List Str)) : List (List Str) := normRows P TT.init rows
 
 theorem C01_normalForm_idem (P : CellParser) (G) (hrt : RT P G) (rows : List (List Str)) (hg : goodRows P G TT.init rows) :
     normalForm P (normalForm P rows) = normalForm P rows ∧ (run (normalForm P rows)).skel = (run rows).skel ∧
